@@ -41,7 +41,7 @@ fn info(tier: Tier) -> CheckInfo {
         id: "C12",
         level: "model_checking",
         rule: format!(
-            "Explicit-state BFS (depth {}) whose state is the real RoutingTable + virtual clock, from 6 initial states (empty; one bucket pre-filled through real add() calls with 19 and with 20 fresh nodes; the same aged 14 and 16 minutes; a 20-node bucket whose head is stale and whose tail is fresh) over a 22-action alphabet: add of new ids into the full bucket / another bucket, re-add of a present id with same address / new port / new IP, an insecure id on the IP of a present secure node and vice versa, a second secure id with the same and with a different 21-bit prefix on one IP, an id first seen as insecure on an unrelated IP that later shows up on an occupied IP for which it is secure, add(self id), remove present/absent, re-key to an id in another bucket class and to the id of a present node, clock steps 1/14/16 min. Every state: no self id, unique ids, bucket key = distance, buckets <= 20, size/iteration/is_empty agree, per-IP Sybil limits, to_bootstrap = non-stale entries. Every add: nothing foreign appears and at most the stale head of a full bucket (or the same-id entry being replaced) disappears. Address classes: 26 addresses on both sides of every BEP42 exemption boundary (10/8, 172.16/12, 192.168/16, 169.254/16, 127/8) x a family of five ids (two insecure, secure, secure with the same prefix, secure with another prefix) added to an empty table in all 120 orders, the same invariants after every add. Distance classes: one node per first-differing bit (all 160) added to one table in three orders, the same invariants after every add (the bucket key against the harness' own bitwise distance).",
+            "Explicit-state BFS (depth {}) whose state is the real RoutingTable + virtual clock, from 6 initial states (empty; one bucket pre-filled through real add() calls with 19 and with 20 fresh nodes; the same aged 14 and 16 minutes; a 20-node bucket whose head is stale and whose tail is fresh) over a 22-action alphabet: add of new ids into the full bucket / another bucket, re-add of a present id with same address / new port / new IP, an insecure id on the IP of a present secure node and vice versa, a second secure id with the same and with a different 21-bit prefix on one IP, an id first seen as insecure on an unrelated IP that later shows up on an occupied IP for which it is secure, add(self id), remove present/absent, re-key to an id in another bucket class and to the id of a present node, clock steps 1/14/16 min. Every state: no self id, unique ids, bucket key = distance, buckets <= 20, size/iteration/is_empty agree, per-IP Sybil limits, to_bootstrap = non-stale entries. Every add: an accepted node's entry is stamped with the current time, a node that is already an entry (same id and address, alone on its IP) is accepted and re-stamped even in a full bucket, nothing foreign appears and at most the stale head of a full bucket (or the same-id entry being replaced) disappears. Address classes: 26 addresses on both sides of every BEP42 exemption boundary (10/8, 172.16/12, 192.168/16, 169.254/16, 127/8) x a family of five ids (two insecure, secure, secure with the same prefix, secure with another prefix) added to an empty table in all 120 orders, the same invariants after every add. Distance classes: one node per first-differing bit (all 160) added to one table in three orders, the same invariants after every add (the bucket key against the harness' own bitwise distance).",
             depth(tier)
         ),
         assumptions: vec![
@@ -349,6 +349,28 @@ impl Machine for St {
                 if !ret && (a.len() != b.len() || a.iter().any(|x| !b.contains(x))) {
                     self.viol(out, "add/returned-false-but-changed", "add() returned false but the table changed".into(), path);
                 }
+                // a node that is heard from again (the very entry, same id and address) is
+                // refreshed: "least recently seen" and "stale" are defined by these timestamps
+                // (an entry that shares its IP with another entry is left out: there the per-IP
+                // rule, which the code applies to refreshes as well, may refuse)
+                let same_present = b.contains(&(n.id, n.addr)) && !b.iter().any(|x| x.1.ip() == n.addr.ip() && x.0 != n.id);
+                if same_present && !ret {
+                    self.viol(out, "add/heard-again-refused", "add() of a node that is already an entry (same id, same address) returned false: it is never marked as heard from".into(), path);
+                }
+                if ret || same_present {
+                    if let Some(e) = after_entries.iter().find(|e| (e.0, e.1) == (n.id, n.addr)) {
+                        if e.2 != now {
+                            self.viol(
+                                out,
+                                "add/heard-again-not-refreshed",
+                                format!("after add() of {} its entry says it was last heard from {} s ago", hex(&n.id[..4]), (now - e.2) / 1_000_000_000),
+                                path,
+                            );
+                        } else if same_present {
+                            out.add("refreshes", 1);
+                        }
+                    }
+                }
                 // what disappeared
                 let removed: Vec<&(Id20, SocketAddrV4, u64, u8, usize)> = before_entries.iter().filter(|e| !a.contains(&key(e))).collect();
                 for e in &removed {
@@ -581,6 +603,7 @@ fn run(tier: Tier, _s: usize, _n: usize, _seed: u64) -> Partial {
     out.witness("an add was refused", out.count("adds_refused") > 0);
     out.witness("a stale head was evicted", out.count("stale_evictions") > 0);
     out.witness("a re-key happened", out.count("rekeys") > 0);
+    out.witness("a present node was heard from again and refreshed", out.count("refreshes") > 0);
     out
 }
 
